@@ -22,7 +22,7 @@ pub const DEF: PropDef = PropDef {
 const KINDS: [Kind; 3] = [Kind::Tiny, Kind::Hostile, Kind::Long];
 
 fn per_entry(tier: Tier) -> u64 {
-    tier.pick(36, 1800, 2)
+    tier.pick(150, 1800, 2)
 }
 
 fn jobs(plan: &Plan) -> Vec<Job> {
